@@ -152,7 +152,8 @@ func HandleInviteV3(ctx context.Context, input HandleInviteV3Input) (PDU, error)
 	var protoContent struct {
 		Membership string `json:"membership"`
 	}
-	if err = json.Unmarshal(input.InviteProtoEvent.Content, &protoContent); err != nil || protoContent.Membership != spec.Invite {
+	// the member named exactly "membership": the one the readers of the built event will see
+	if err = json.Unmarshal(exactMembersOnly(input.InviteProtoEvent.Content, &protoContent), &protoContent); err != nil || protoContent.Membership != spec.Invite {
 		return nil, spec.BadJSON("The invite event must have membership \"invite\"")
 	}
 
